@@ -215,6 +215,10 @@ def run(ctx):
         else:
             band_pairs += [(a, b) for a in mem_ for b in mem_ if a != b]
     pairs += band_pairs
+    # every pair of times and every pair of durations (whole representable range)
+    for t in ("time", "dur"):
+        idx = [p["i"] for p in pool if p["v"]["t"] == t]
+        pairs += [(a, b) for a in idx for b in idx if a != b]
     chosen = set(pairs)
     want = len(pairs) + (200 if ctx.quick() else 4000)
     nbase = sum(1 for p in pool if p.get("grp", -1) < 0)
